@@ -568,6 +568,15 @@ theorem elem_of_table (hK : avgKeysOk = true) (mono : Bool) (sym : Key) (m : Rat
     simp only [Bool.false_eq_true, if_false, hn, h]
     rfl
 
+theorem adductElemMass_of_table (mono : Bool) (sym : Key) (m : Rat)
+    (h : lookup sym (if mono then isotopicMasses else averageMasses) = some m) : adductElemMass mono sym = some m := by
+  unfold adductElemMass
+  cases mono with
+  | true => simpa using h
+  | false =>
+    simp only [Bool.false_eq_true, if_false] at h ⊢
+    rw [h]
+
 /-- what the current code adds beyond count·(m − q·mₑ) for one stated ion: q·mₑ·(count − 1) -/
 def adductDefectIon (x : List Nat) : Rat :=
   match parseIonElements x with
@@ -597,7 +606,7 @@ theorem adductMass_eq (hK : avgKeysOk = true) (mono : Bool) (x : List Nat) (h : 
       ring
     · simp only [he, if_false, decide_false, Bool.false_or] at h ⊢
       obtain ⟨m, hm⟩ := Option.isSome_iff_exists.mp h
-      rw [hm]
+      rw [adductElemMass_of_table mono sym m hm]
       have hel := elem_of_table hK mono sym m hm
       show Except.ok _ = Except.ok _
       congr 1
